@@ -385,9 +385,12 @@ impl Storage {
                 )
                 .expect("batch put should be ok");
         }
+        // The pending matched blocks are discarded in the same batch: a record which is left
+        // behind (if the process is killed in the middle) would be recovered after the restart
+        // and, when its blocks are downloaded, the new scripts would be marked as filtered up to
+        // the end of its range.
+        self.clear_matched_blocks(&mut batch);
         batch.commit().expect("batch commit should be ok");
-
-        self.clear_matched_blocks();
 
         if should_filter_genesis_block {
             let block = self.get_genesis_block();
@@ -491,10 +494,9 @@ impl Storage {
         self.db.delete(&key).expect("delete matched blocks");
     }
 
-    fn clear_matched_blocks(&self) {
+    fn clear_matched_blocks(&self, batch: &mut Batch) {
         let key_prefix = Key::Meta(MATCHED_FILTER_BLOCKS_KEY).into_vec();
         let mode = IteratorMode::From(key_prefix.as_ref(), Direction::Forward);
-        let mut batch = self.batch();
         for (key, _) in self
             .db
             .iterator(mode)
@@ -502,7 +504,6 @@ impl Storage {
         {
             batch.delete(key).expect("batch delete should be ok");
         }
-        batch.commit().expect("batch commit should be ok");
     }
 
     /// the matched blocks must not empty
